@@ -36,7 +36,7 @@ def mutate(spec, r):
     s = copy.deepcopy(spec)
     nodes = list(walk(s))
     comps = s.get("components") if isinstance(s, dict) else None
-    kind = r.choice(["retarget", "retarget", "delete", "confuse", "rename", "methods", "nest", "contradict", "allofcycle", "selfref"])
+    kind = r.choice(["retarget", "retarget", "delete", "confuse", "rename", "methods", "nest", "contradict", "allofcycle", "selfref", "pathedit"])
     sch = comps.get("schemas") if isinstance(comps, dict) else None
     schemas = list(sch.keys()) if isinstance(sch, dict) else []
     try:
@@ -96,6 +96,19 @@ def mutate(spec, r):
             if schemas:
                 a = r.choice(schemas)
                 s["components"]["schemas"][a] = r.choice([{"$ref": "#/components/schemas/" + a}, {"allOf": [{"$ref": "#/components/schemas/" + a}]}, {"oneOf": [{"$ref": "#/components/schemas/" + a}]}, {"type": "array", "items": {"$ref": "#/components/schemas/" + a}}])
+        elif kind == "pathedit":
+            paths = s.get("paths") or {}
+            if paths:
+                pk = r.choice(list(paths))
+                chars = list(pk)
+                for _ in range(r.randint(1, 2)):
+                    braces = [i for i, c in enumerate(chars) if c in "{}"]
+                    # mostly next to a template parameter, where the tokenizer slices
+                    at = r.choice(braces) + r.choice([0, 1]) if braces and r.random() < 0.7 else r.randint(0, len(chars))
+                    chars[at:at] = list(r.choice(["\u00e9", "\u20ac", "\u65e5\u672c", "\U0001f600", " ", "%", "%2F", "{", "}", "//", "{}", "?q=1", "#f", ".", "-", "\\"]))
+                new = "".join(chars)
+                if new not in paths:
+                    paths[new] = paths.pop(pk)
     except (KeyError, IndexError, TypeError, AttributeError):
         pass
     return s, kind
@@ -112,10 +125,28 @@ def listing(root):
     return sorted(out)
 
 
+def tree(root):
+    """files (with content hash) AND directories below root"""
+    out = []
+    for dp, dn, fn in os.walk(root):
+        for x in sorted(dn):
+            out.append([os.path.relpath(os.path.join(dp, x), root) + "/", "dir"])
+        for f in sorted(fn):
+            p = os.path.join(dp, f)
+            try:
+                out.append([os.path.relpath(p, root), hashlib.sha1(open(p, "rb").read()).hexdigest()])
+            except OSError:
+                out.append([os.path.relpath(p, root), "unreadable"])
+    return sorted(out)
+
+
 def run_one(ctx, d, spec, mode, target, tag):
     spec_path = os.path.join(d, f"spec_{tag}.json")
     json.dump(spec, open(spec_path, "w"))
-    out = os.path.join(d, f"out_{tag}")
+    # every run gets a directory of its own, so that files dropped NEXT TO the target are seen too
+    cd = os.path.join(d, f"case_{tag}")
+    os.makedirs(cd)
+    out = os.path.join(cd, "out")
     single = mode in ("types", "client")
     outp = out + ".rs" if single else out
     if target == "preexisting":
@@ -133,13 +164,14 @@ def run_one(ctx, d, spec, mode, target, tag):
         outp = os.path.join(out + "_ro", "x.rs" if single else "sub")
     elif target == "blocked-second-file" and not single:
         os.makedirs(outp); os.makedirs(os.path.join(outp, "client.rs" if mode == "client-mod" else "server.rs"))
-    root = outp if os.path.exists(outp) else None
-    before = listing(outp) if root else []
+    before_out = listing(outp) if os.path.exists(outp) else []
+    before = tree(cd)
     rc, so, se, to = ctx.run_cli(["generate", mode, "-i", spec_path, "-o", outp, "-q"], timeout=10 if ctx.quick else 20, env={"RUST_BACKTRACE": "0"})
-    after = listing(outp) if os.path.exists(outp) else []
-    written = [f for f, h in after if [f, h] not in before]
     if target == "readonly":
         os.chmod(out + "_ro", 0o755)
+    after = tree(cd)
+    after_out = listing(outp) if os.path.exists(outp) else []
+    written = [f for f, h in after_out if [f, h] not in before_out]
     tgt = "ok" if target in ("ok", "preexisting") else target
     if target == "preexisting":
         tgt = "ok"
@@ -180,6 +212,26 @@ def run(ctx):
         for tgt in ("preexisting", "nondir", "readonly"):
             for mode in ("types", "client-mod"):
                 batch.append(run_one(ctx, d, bases[-1], mode, tgt, f"w_{tgt}_{mode}"))
+        # the path-template grammar, segment by segment: literal / parameter arrangements over ASCII and
+        # multi-byte literals, and every malformed brace shape
+        lits = ["a", "\u00e9", "\u20acx", "\u65e5\u672c", "a-b", "%20", "\U0001f600", "x.y"]
+        segs = []
+        for l in lits:
+            segs += [l, l + "{id}", "{id}" + l, l + "{id}" + l]
+        segs += ["{id}", "{id}{k}", "{id}-{k}", "{", "}", "{}", "{a{b}}", "a}b{", "{id", "id}", "\u00e9}", "\u00e9{", "{\u00e9}", "{id}\u00e9{k}", ""]
+        if ctx.quick:
+            segs = r.sample(segs, 24)
+        for i, sg in enumerate(segs):
+            sp = copy.deepcopy(bases[-1])
+            names = [x for x in ("id", "k", "\u00e9", "a{b") if "{" + x + "}" in sg]
+            op = {"operationId": "seg" + str(i), "parameters": [{"name": n, "in": "path", "required": True, "schema": {"type": "string"}} for n in names],
+                  "responses": {"200": {"description": "ok"}}}
+            sp["paths"] = {"/v/" + sg + r.choice(["", "/tail", "/{t}"]): {"get": op}}
+            if "{t}" in list(sp["paths"])[0]:
+                op["parameters"].append({"name": "t", "in": "path", "required": True, "schema": {"type": "string"}})
+            c = run_one(ctx, d, sp, r.choice(MODES), "ok", f"seg{i}")
+            c["primary"]["segment"] = sg
+            batch.append(c)
         bad = dict(bases[-1]); bad = copy.deepcopy(bad); bad["paths"] = "nope"
         batch.append(run_one(ctx, d, bad, "client-mod", "preexisting", "w_fail_preexisting"))
         for i in range(n):
@@ -207,4 +259,4 @@ def run(ctx):
     return ctx.finish(
         checker_cmd="lake build Oas3Model.Props.C12 && #print axioms on every theorem" + ("" if ctx.quick else " && leanchecker"),
         trusted_base=vlib.TRUSTED_BASE + ["the oas3 parser, tokio and the OS are outside the model; their behaviour is only observed through real CLI runs", "the panic-site table is produced by a regex-level scan (tools/extract.py: gen_panicsites) and justified by a reviewed list"],
-        rule="the REAL binary on fixtures and generated specs passed through 1-3 structure-aware mutators (ref retargeting incl. dangling/external/self/cyclic, allOf cycles, deletion, type confusion, empty/huge/keyword/odd names, all 8 HTTP methods, deep nesting, contradictory constraints) x 4 modes (160 quick / 3000 thorough) + unwritable / non-directory / pre-existing / half-blocked output targets; observed: exit status, signal, time limit, stderr, directory listing with content hashes before/after; non-trivial = every run; distinct by branch (ok/error/panic/signal x target)")
+        rule="the REAL binary on fixtures and generated specs passed through 1-3 structure-aware mutators (ref retargeting incl. dangling/external/self/cyclic, allOf cycles, deletion, type confusion, empty/huge/keyword/odd names, edits of path templates (non-ASCII, stray/nested braces, odd characters next to a parameter), all 8 HTTP methods, deep nesting, contradictory constraints) x 4 modes (160 quick / 3000 thorough) + the path-template segment grammar ({literal, parameter} arrangements over ASCII / multi-byte literals, malformed braces; 24 quick / 47 thorough) + unwritable / non-directory / pre-existing / half-blocked output targets; observed: exit status, signal, time limit, stderr, listing (files with content hashes and directories) of the run's own directory - the target and everything next to it - before/after; non-trivial = every run; distinct by branch (ok/error/panic/signal x target)")
